@@ -234,6 +234,98 @@ pub fn run_op(i: usize) -> Vec<u8> {
         }
     }
 }
+pub fn fnv(b: &[u8]) -> u64 {
+    let mut h: u64 = 0xcbf29ce484222325;
+    for x in b {
+        h = (h ^ *x as u64).wrapping_mul(0x100000001b3);
+    }
+    h
+}
+/// operation instances used by the free-running pass (cheap ones, every code area)
+pub const STRESS_OPS: [usize; 12] = [1, 2, 0, 3, 4, 6, 7, 8, 11, 12, 13, 15];
+/// child mode: 16 free-running threads execute the same operation instance at the same time (released together by a
+/// barrier), for every instance in a rotation chosen by `seed`, as the FIRST library use of a fresh process.
+pub fn stress_child(seed: usize) {
+    use std::sync::{Arc, Barrier};
+    let n = 16;
+    let barrier = Arc::new(Barrier::new(n));
+    let order: Vec<usize> = (0..STRESS_OPS.len()).map(|j| STRESS_OPS[(j + seed) % STRESS_OPS.len()]).collect();
+    let hs: Vec<_> = (0..n)
+        .map(|t| {
+            let barrier = barrier.clone();
+            let order = order.clone();
+            std::thread::spawn(move || {
+                let mut lines = vec![];
+                for &op in &order {
+                    barrier.wait();
+                    // a small stagger so that some threads enter while others are in the middle of the call
+                    for _ in 0..(t * 3000) {
+                        std::hint::spin_loop();
+                    }
+                    let out = std::panic::catch_unwind(|| run_op(op)).unwrap_or_else(|_| b"PANIC".to_vec());
+                    lines.push(format!("{} {} {:016x}", t, op, fnv(&out)));
+                }
+                lines
+            })
+        })
+        .collect();
+    for h in hs {
+        for l in h.join().unwrap_or_default() {
+            println!("{}", l);
+        }
+    }
+}
+
+fn free_running(ctx: &Ctx, base: &[Vec<u8>]) {
+    let sub = "free_running_sampling";
+    if !ctx.selected(sub) {
+        return;
+    }
+    ctx.trace("free-running pass");
+    let rounds = ctx.tier.pick(6usize, 48);
+    let exe = match std::env::current_exe() {
+        Ok(e) => e,
+        Err(_) => return,
+    };
+    let only = ctx.replay_index(sub);
+    let mut evals = 0u64;
+    for s in 0..rounds {
+        if let Some(o) = only {
+            if o != s as u64 {
+                continue;
+            }
+        }
+        let o = match std::process::Command::new(&exe).arg("__c20_stress").arg(s.to_string()).output() {
+            Ok(o) => o,
+            Err(_) => {
+                ctx.machinery("could not run the free-running child");
+                return;
+            }
+        };
+        let text = String::from_utf8_lossy(&o.stdout).to_string();
+        let mut seen = 0;
+        for l in text.lines() {
+            let f: Vec<&str> = l.split_whitespace().collect();
+            if f.len() != 3 {
+                continue;
+            }
+            let (t, op, h) = (f[0], f[1].parse::<usize>().unwrap_or(0), u64::from_str_radix(f[2], 16).unwrap_or(0));
+            seen += 1;
+            evals += 1;
+            if h != fnv(&base[op]) {
+                ctx.violation(sub, s as u64, Fail::with(format!("free-running pass (sampling): thread {} got different bits from '{}' while 15 other threads executed the same call concurrently as first use in a fresh process", t, OP_NAMES[op]), json!({"child_seed": s, "op": op})));
+                ctx.count(sub, evals, evals, false, None);
+                return;
+            }
+        }
+        if seen != 16 * STRESS_OPS.len() {
+            ctx.machinery(format!("free-running child {} produced {} results instead of {}", s, seen, 16 * STRESS_OPS.len()));
+            return;
+        }
+    }
+    ctx.count(sub, evals, evals, false, Some(json!({"kind": "SAMPLING, not exhaustive: 16 real threads released together by a barrier, no scheduler", "child_processes": rounds, "ops_per_thread": STRESS_OPS.len()})));
+}
+
 pub fn hex_of(b: &[u8]) -> String {
     b.iter().map(|x| format!("{:02x}", x)).collect()
 }
@@ -361,6 +453,7 @@ pub fn run(ctx: &Ctx) -> (&'static str, &'static str) {
             }
         }
         histories(ctx, &base);
+        free_running(ctx, &base);
     } else {
         ctx.machinery("could not compute fresh-process baselines");
     }
@@ -474,6 +567,7 @@ pub fn run(ctx: &Ctx) -> (&'static str, &'static str) {
         ctx.extra("writable data symbols of pairing_plus in the rlib (hooks on)", json!(s.lines().collect::<Vec<_>>()));
     }
     ctx.assume("scheduling points are operation boundaries and the cfg-guarded hook points at phase boundaries; interference through state touched strictly between two points of one operation is outside the explored schedules");
+    ctx.assume("free_running_sampling is a labelled SAMPLING pass (16 unsynchronised threads, fresh child processes): it can only add violations, it is never the reason a property is reported as held");
     ctx.assume("bit-level observations are the in-memory Montgomery limbs of every coordinate / coefficient");
     (
         "model_checking",
